@@ -264,7 +264,8 @@ def _parse_argument_set(
             gap = gap_between(node, previous_child, closing_brace)
             gap_newlines = gap.count("\n")
             if gap_newlines > 1:
-                argument_set_trailing_empty_lines = gap_newlines - 1
+                # Keep at most one blank line before the closing brace.
+                argument_set_trailing_empty_lines = 1
         if before:
             # Preserve dangling trivia even when formals are empty.
             if argument_set:
@@ -410,7 +411,8 @@ def _collect_colon_trivia(
     if leading_newlines:
         breaks_after_semicolon = 1
         if leading_newlines > 1:
-            before_body_trivia.extend([empty_line] * (leading_newlines - 1))
+            # Keep at most one blank line between the colon and the body.
+            before_body_trivia.append(empty_line)
 
     for index, comment_node in enumerate(between_comment_nodes):
         before_body_trivia.append(Comment.from_cst(comment_node))
